@@ -14,6 +14,7 @@ import (
 	"fmt"
 	"io"
 	"os"
+	"path"
 	"path/filepath"
 	"sort"
 	"strings"
@@ -227,6 +228,16 @@ func vt_C05_tree_glob() {
 	defer closeAll()
 	got, cerr := c.Glob(a + pat)
 	want, oerr := filepath.Glob(b + pat)
+	// The standard library's two matchers disagree on malformed patterns of the
+	// shape "...*[" / "...*\\" tried against the empty name (path.Match reports
+	// them, filepath.Match - filepath.Glob's well-formedness check - does not, and
+	// then notices only if a directory gets that far). Client.Glob uses
+	// path.Match; such patterns are outside the comparison.
+	_, pe := path.Match(b+pat, "")
+	_, fe := filepath.Match(b+pat, "")
+	if (pe == nil) != (fe == nil) {
+		return
+	}
 	vAssert((cerr == nil) == (oerr == nil), "Glob (real fs): ErrBadPattern exactly when filepath.Glob reports it"+vDbg(pat, cerr, oerr))
 	for i := range got {
 		got[i] = strings.TrimPrefix(got[i], a)
